@@ -74,7 +74,7 @@ func c07Actions() []c07act {
 			out = append(out, c07act{rx.Set(t, r.r), top(t), "SET(" + r.kind + ")"})
 		}
 	}
-	for _, t := range []string{"a", "b", "m.x", "m.nokey", "l[0]", "l[1]", "l[2]", "l[9]", "nope", "#a", "u.k", "u.k[0]", "nope.x", "ss"} {
+	for _, t := range []string{"a", "b", "m.x", "m.nokey", "l[0]", "l[1]", "l[2]", "l[9]", "nope", "#a", "u.k", "u.k[0]", "u.k[1]", "u.k[1].n", "u.k[1].nokey", "u.k[9].n", "nope.x", "ss"} {
 		out = append(out, c07act{rx.Remove(t), top(t), "REMOVE"})
 	}
 	for _, pv := range [][2]string{{"a", ":n"}, {"a", ":s"}, {"nw", ":n"}, {"nw", ":ss"}, {"nw", ":s"}, {"ss", ":ss"}, {"ss", ":ns"}, {"ns", ":ns"}, {"bs", ":bs"}, {"b", ":n"}, {"#a", ":n"}, {"ss", ":s"}} {
